@@ -93,6 +93,9 @@ def gen_cases(rng, n, tier):
     out = []
     for i in range(n):
         cfg = T.CFGS[i % len(T.CFGS)]
+        if i % 9 == 4:
+            # the tracker plugin is active and a user column is mapped under an attribute named like a flag (`last_mod`)
+            cfg = dict(cfg, names='default', tracker=True, modattr=True)
         rows = T.gen_table(rng, cfg, maxlen=6)
         # make op/end uniform often so that equal data really compares equal
         if rng.random() < 0.7:
@@ -168,7 +171,7 @@ def _observe(env, cfg, rows, case=None):
                 if cfg['strategy'] == 'validity':
                     d[endc] = r['end']
                 d['operation_type'] = r['op']
-                d['a'], d['b'] = r['dat']
+                d['a'], d[T.bcol(cfg)] = r['dat']
                 s.add(V(**d))
         yp = case.get('yield_per')
         vacuum(s, env.Article, **({'yield_per': yp} if yp else {}))
@@ -194,7 +197,12 @@ def _observe(env, cfg, rows, case=None):
 def _worker(chunk):
     cfg, items = chunk
     out = []
-    with E.Env(options=T.cfg_options(cfg), build=build_joined if cfg.get('shape') == 'joined' else T.build_article(cfg)) as env:
+    plugins = []
+    if cfg.get('tracker'):
+        from sqlalchemy_continuum.plugins import PropertyModTrackerPlugin
+        plugins = [PropertyModTrackerPlugin()]
+    with E.Env(options=T.cfg_options(cfg), plugins=plugins,
+               build=build_joined if cfg.get('shape') == 'joined' else T.build_article(cfg)) as env:
         for idx, rows, yp in items:
             out.append((idx, _observe(env, cfg, rows, dict(yield_per=yp[0], pending=yp[1]))))
     return out
